@@ -270,6 +270,29 @@ CasesDevLastOfName(u) == { MkCaseB(2, {{1, 2}}, NoLab({{1, 2}}), <<"D", "D">>, N
                            MkCaseB(2, {{1, 2}}, NoLab({{1, 2}}), <<"E", "E">>, NoLabs(2), BlocksDE,
                                    << Lk(<<Z, P1>>, <<AtR(1, "s", DE), AtR(2, "d1", DE)>>, <<Bond(1, 2, "0.2")>>) >>) }
 
+(* ---- family I (independent seed5-C10-1): copies of a two-residue block DI = X(x1, x2) - Y(y1), labelled from_itp, listed consecutively *)
+BlkX == [atoms |-> << [atomname |-> "x1", atype |-> "TA", resname |-> "X"], [atomname |-> "x2", atype |-> "TC", resname |-> "X"] >>, inters |-> << Bond(1, 2, "0.1") >>]
+BlkY == [atoms |-> << [atomname |-> "y1", atype |-> "TB", resname |-> "Y"] >>, inters |-> <<>>]
+BlocksXY == [X |-> BlkX, Y |-> BlkY, A |-> BlkA]
+MultiDI == [name |-> "DI", parts |-> <<"X", "Y">>, inters |-> << [kind |-> "bonds", atoms |-> << <<1, 2>>, <<2, 1>> >>, par |-> "0.15", ver |-> 1] >>]
+OX == <<"X">>
+OY == <<"Y">>
+LYX(p, par) == Lk(<<Z, p>>, <<AtR(1, "y1", OY), AtR(2, "x1", OX)>>, <<Bond(1, 2, par)>>)           \* joins one copy to the next
+ItpFFs == { << >>, << LYX(P1, "0.2") >>, << LYX(GT, "0.2") >>,
+            << LYX(P1, "0.2"), Lk(<<Z, P1>>, <<AtR(1, "y1", OY), AtR(2, "a1", OA)>>, <<Bond(1, 2, "0.3")>>) >>,
+            << Lk(<<Z, P1>>, <<AtR(1, "x2", OX), AtR(2, "y1", OY)>>, <<Bond(1, 2, "0.3")>>) >> }        \* a link INSIDE the block: replaces the block's own bond
+MkCaseI(nc, tail, ring, ff) ==
+  LET n == 2 * nc + (IF tail THEN 1 ELSE 0)
+      es == PathG(n) \cup (IF ring /\ nc >= 2 THEN {{1, 2 * nc}} ELSE {})
+  IN [n |-> n, resid |-> [r \in 1..n |-> r],
+      rattr |-> [r \in 1..n |-> IF r > 2 * nc THEN [resname |-> "A"] ELSE [resname |-> IF r % 2 = 1 THEN "X" ELSE "Y", from_itp |-> "DI"]],
+      edges |-> EdgeSeq(es, NoLab(es)), blocks |-> ff.blocks, links |-> ff.links,
+      fints |-> [k \in 1..nc |-> [kind |-> "bonds", atoms |-> << <<2 * k - 1, 2>>, <<2 * k, 1>> >>, par |-> "0.15", ver |-> 1]]]
+GsI(u) == { <<nc, tail, ring>> : nc \in 1..3, tail \in BOOLEAN, ring \in BOOLEAN }
+FFsI(u) == { [blocks |-> BlocksXY, links |-> ls, multi |-> MultiDI] : ls \in ItpFFs }
+CasesI(u) == { MkCaseI(g[1], g[2], g[3], ff) : g \in GsI(u), ff \in FFsI(u) }
+CasesDevSkipSameItp(u) == { MkCaseI(2, FALSE, FALSE, [blocks |-> BlocksXY, links |-> << >>, multi |-> MultiDI]) }
+
 (* ---- family N (independent seed C10-2): node keys that are a permutation of the residue ids *)
 GsN(u) == NonId(WithPerms(GN(3))) \cup NonId(WithPerms({g \in GN(4) : g[1] = 4 /\ AllA(g) /\ Cardinality(g[2]) <= 4}))
 FFsN(u) == FFof({ << >>, << LB(P1, "0.2") >>, << LB(GT, "0.2") >>, << LA(ST, "0.2") >>, << LB(GT, "0.2"), TermDel >> })
@@ -326,13 +349,16 @@ GateEntries == { [mol |-> t, count |-> k] : t \in DOMAIN GateMol, k \in 1..2 }
 GateTopsN(n) == [1..n -> GateEntries]
 RECURSIVE ExpandTop(_)
 ExpandTop(top) == IF Len(top) = 0 THEN <<>>
-                  ELSE [j \in 1..top[1].count |-> [conn |-> GateConn[top[1].mol], rn |-> [r \in 1..3 |-> GateMol[top[1].mol].rattr[r].resname]]] \o ExpandTop(Tail(top))
+                  ELSE [j \in 1..top[1].count |-> [name |-> top[1].mol, conn |-> GateConn[top[1].mol], rn |-> [r \in 1..3 |-> GateMol[top[1].mol].rattr[r].resname]]] \o ExpandTop(Tail(top))
 NResOf(top) == 3 * Len(ExpandTop(top))
-NoCoord == [kind |-> "none", k |-> 0, res |-> <<>>]
+NoCoord == [kind |-> "none", k |-> 0, res |-> <<>>, ign |-> <<>>]
 \* -c / -mc files covering all residues, all but the last, the first molecule only, one residue; with and without -res A
-CoordsFor(top) == {NoCoord} \cup { [kind |-> kd, k |-> k, res |-> rs] : kd \in {"c", "mc"}, k \in {NResOf(top), NResOf(top) - 1, 3, 1}, rs \in {<<>>, <<"A">>} }
+CoordsFor(top) == {NoCoord} \cup { [kind |-> kd, k |-> k, res |-> rs, ign |-> <<>>] : kd \in {"c", "mc"}, k \in {NResOf(top), NResOf(top) - 1, 3, 1}, rs \in {<<>>, <<"A">>} }
 GateCases == { [top |-> t, co |-> NoCoord] : t \in GateTopsN(3) }
              \cup UNION { { [top |-> t, co |-> co] : co \in CoordsFor(t) } : t \in GateTopsN(1) \cup GateTopsN(2) }
+             \* -ign: one molecule type ignored (c2 or d2), standing first / last / between the others; with and without -c for the first molecule
+             \cup { [top |-> t, co |-> [kind |-> "none", k |-> 0, res |-> <<>>, ign |-> <<g>>]] : t \in GateTopsN(2) \cup GateTopsN(3), g \in {"c2", "d2"} }
+             \cup { [top |-> t, co |-> [kind |-> "c", k |-> 3, res |-> <<>>, ign |-> <<g>>]] : t \in GateTopsN(2), g \in {"c2", "d2"} }
 GInit == case \in GateCases /\ st = [pc |-> "gate"]
 GSpec == GInit /\ [][UNCHANGED vars]_vars
 GateIsExpected == GateMolsAsNamed /\ GateOK(ExpandTop(case.top), case.co)
@@ -342,13 +368,13 @@ GateExport == PrintT(<<"CASE", ToJson([top |-> case.top, co |-> case.co,
                                        must_refuse |-> GateMustRefuse(ExpandTop(case.top), case.co), must_pass |-> GateMustPass(ExpandTop(case.top))])>>)
 
 (* ---- the family of this run *)
-FamGs == CASE Fam = "A" -> GsA(0) [] Fam = "B" -> GsB(0) [] Fam = "C" -> GsC(0) [] Fam = "D" -> GsD(0) [] Fam = "E" -> GsE(0) [] Fam = "M" -> GsM(0) [] Fam = "F" -> GsF(0) [] Fam = "N" -> GsN(0) [] Fam = "R" -> GsR(0) [] OTHER -> {}
-FamFFs == CASE Fam = "A" -> FFsA(0) [] Fam = "B" -> FFsB(0) [] Fam = "C" -> FFsC(0) [] Fam = "D" -> FFsD(0) [] Fam = "E" -> FFsE(0) [] Fam = "M" -> FFsM(0) [] Fam = "F" -> FFsF(0) [] Fam = "N" -> FFsN(0) [] Fam = "R" -> FFsR(0) [] OTHER -> {}
+FamGs == CASE Fam = "A" -> GsA(0) [] Fam = "B" -> GsB(0) [] Fam = "C" -> GsC(0) [] Fam = "D" -> GsD(0) [] Fam = "E" -> GsE(0) [] Fam = "M" -> GsM(0) [] Fam = "F" -> GsF(0) [] Fam = "N" -> GsN(0) [] Fam = "R" -> GsR(0) [] Fam = "I" -> GsI(0) [] OTHER -> {}
+FamFFs == CASE Fam = "A" -> FFsA(0) [] Fam = "B" -> FFsB(0) [] Fam = "C" -> FFsC(0) [] Fam = "D" -> FFsD(0) [] Fam = "E" -> FFsE(0) [] Fam = "M" -> FFsM(0) [] Fam = "F" -> FFsF(0) [] Fam = "N" -> FFsN(0) [] Fam = "R" -> FFsR(0) [] Fam = "I" -> FFsI(0) [] OTHER -> {}
 FamCases == CASE Fam \in {"A", "B", "C", "D"} -> {}
               [] Fam = "M" -> PlainF({g \in GsM(0) : g[1] <= 3}, FFsM(0))
               [] Fam = "F" -> PlainF({g \in GsF(0) : g[1] <= 2 \/ g[6] \in {<<1, 2, 3>>, <<2, 1, 3>>, <<3, 1, 2>>}}, FFsF(0))
               [] Fam = "N" -> PlainF({g \in GsN(0) : g[1] <= 3}, FFsN(0))
-              [] Fam = "R" -> PlainF(GsR(0), FFsR(0)) [] Fam = "devLastOfName" -> CasesDevLastOfName(0) [] Fam = "devRepBeforePattern" -> CasesDevRepBeforePattern(0)
+              [] Fam = "R" -> PlainF(GsR(0), FFsR(0)) [] Fam = "I" -> CasesI(0) [] Fam = "devSkipSameItp" -> CasesDevSkipSameItp(0) [] Fam = "devLastOfName" -> CasesDevLastOfName(0) [] Fam = "devRepBeforePattern" -> CasesDevRepBeforePattern(0)
               [] Fam = "devNoAtomResname" -> CasesDevNoAtomResname(0) [] Fam = "devOrderedPairs" -> CasesDevOrderedPairs(0)
               [] Fam = "E" -> PlainF(GsE(0), FFsE(0))      \* exported families are enumerated chunk by chunk, see XNext
               [] Fam = "small" -> CasesSmall(0) [] Fam = "tiny" -> CasesTiny(0) [] Fam = "small4" -> CasesSmall4(0) [] Fam = "gate" -> {} [] Fam = "missing" -> CasesMissing(0) [] Fam = "missingS" -> Plain({g \in GN(2) : TRUE}, { << >> })
@@ -357,7 +383,7 @@ FamCases == CASE Fam \in {"A", "B", "C", "D"} -> {}
               [] Fam = "devPattern" -> CasesDevPattern(0) [] Fam = "devKeepRemoved" -> CasesDevKeepRemoved(0) [] Fam = "devF13" -> CasesDevF13(0)
               [] Fam = "devDegree" -> CasesDevDegree(0) [] Fam = "devVerKey" -> CasesDevVerKey(0)
               [] Fam = "devAll" -> CasesDevMono(0) \cup CasesDevOrder(0) \cup CasesDevLinktype(0) \cup CasesDevFirstWins(0) \cup CasesDevAmbig(0) \cup CasesDevNonEdge(0)
-                                   \cup CasesDevPattern(0) \cup CasesDevKeepRemoved(0) \cup CasesDevVerKey(0) \cup CasesDevNoAtomResname(0) \cup CasesDevOrderedPairs(0) \cup CasesDevLastOfName(0) \cup CasesDevRepBeforePattern(0) \cup CasesDevF13(0) \cup CasesDevDegree(0)
+                                   \cup CasesDevPattern(0) \cup CasesDevKeepRemoved(0) \cup CasesDevVerKey(0) \cup CasesDevNoAtomResname(0) \cup CasesDevOrderedPairs(0) \cup CasesDevLastOfName(0) \cup CasesDevRepBeforePattern(0) \cup CasesDevSkipSameItp(0) \cup CasesDevF13(0) \cup CasesDevDegree(0)
 
 (* ---- export for the S->I replay: one root state, one chunk state per residue graph (spread over the workers), one state per case *)
 GSeq == SetToSeq(FamGs)
@@ -366,7 +392,7 @@ XInit == case = Nil /\ st = [pc |-> "root", k |-> 0]
 XNext == \/ /\ st.pc = "root" /\ \E k \in 1..Len(GSeq) : st' = [pc |-> "chunk", k |-> k]
             /\ UNCHANGED case
          \/ /\ st.pc = "chunk"
-            /\ \E ff \in FamFFs : case' = MkF(GSeq[st.k], ff) /\ st' = St0(case')
+            /\ \E ff \in FamFFs : case' = (IF Fam = "I" THEN MkCaseI(GSeq[st.k][1], GSeq[st.k][2], GSeq[st.k][3], ff) ELSE MkF(GSeq[st.k], ff)) /\ st' = St0(case')
 XSpec == XInit /\ [][XNext]_vars
 IsCase == st.pc \notin {"root", "chunk"}
 AtomSeq(S) == SetToSortSeq(S, AtLess)
